@@ -8,7 +8,7 @@ PROFILE = {'name': 'c08', 'max_clients': 6, 'hostile_masks': False, 'mp_rate': 0
 def run(ctx):
     res = Result("C08")
     results, cover, shapes = common.e1_check(
-        ctx, res, PROFILE, n_quick=128, n_thorough=640, steps=160, steps_thorough=320,
+        ctx, res, PROFILE, n_quick=128, n_thorough=2560, steps=160, steps_thorough=320,
         relevant=lambda t: t[0] in ('cmode',),
         nontrivial_rule='every actor (outsider, plain member and all rank combinations handed out by founders) issues mode strings of 1-6 letters with both signs, list letters with and without arguments, +l extremes, +k keys, against every target rank; the MODE announcement is parsed with the multi-modestring grammar and must equal the accepted changes; refused changes must leave the snapshot unchanged; distinct = (outcome, actor rank set, letter, sign, target rank set)')
     modes = sum(n for s, n in shapes.items() if s.startswith("cmode:"))
